@@ -90,6 +90,17 @@ def build(case):
 def g_formula(draw):
     C, F = gen.dims(draw)
     p = gen.gmm_params(draw, C, F, allow_zero_floor=True, kmax=gen.choice(draw, [30.0, 1e3, 1e6]))
+    pat = gen.choice(draw, [None, None, None, "tied", "permuted", "permuted"])
+    if pat and C >= 2:
+        # coincidences between components: the same variance vector everywhere (what training without variance
+        # updates leaves), or the same values in another feature order (equal determinants, different shapes)
+        rp = gen.rng(draw)
+        v0 = np.array(p["variances"][0], dtype=float)
+        rows = [v0] + [v0[rp.permutation(F)] if pat == "permuted" else v0 for _ in range(C - 1)]
+        if pat == "permuted" and F >= 2:
+            rows[1] = v0[::-1]
+        p["variances"] = np.maximum(np.array(rows), np.broadcast_to(np.asarray(p["floors"], float), (C, F)))
+        p["variance_pattern"] = pat
     rare = None
     if C >= 2 and gen.choice(draw, [False, False, True]):
         # "all positive weights": one component with a weight far below machine epsilon (what ML training gives a
